@@ -8,7 +8,7 @@ Doc::is_visible_to is true only for public repos, allow-listed peers or delegate
 import re
 
 from .. import cfg, rules, flow
-from ..cfg import expr_operand, show, peel, peel_calls
+from ..cfg import expr_operand, show, nshow, peel, peel_calls
 
 UP = r"^radicle_node::worker::upload_pack::upload_pack$"
 AUTH = r"^radicle_node::worker::Worker::is_authorized$"
@@ -77,11 +77,36 @@ def run(ctx):
     ctx.floor("is_authorized:ok", len(oks), 1, "Ok exits of is_authorized")
     blk = r"^radicle::node::policy::SeedingPolicy::is_block$"
     vis = r"^radicle::identity::doc::Doc::is_visible_to$"
-    for label, pred in (("not-blocked", rules.is_bool(blk, False)), ("visible", rules.is_bool(vis, True))):
+    # `is_seeding(rid)` is an acceptable way of saying "not blocked" as long as it is defined through the same policy lookup:
+    # Config::is_seeding(rid) == seed_policy(rid).map(|e| e.policy.is_allow())  (SeedingPolicy is Allow | Block)
+    seeding_rx = r"^radicle::node::policy::config::Config::is_seeding$"
+    isd = db.one(seeding_rx)
+    seeding_ok = False
+    why_seeding = "Config::is_seeding not found"
+    if isd is not None:
+        fam = [isd] + db.closures_of.get(isd["n"], [])
+        calls = [(c.get("n") or c.get("dn") or "") for f_ in fam for _, _, c in db.calls(f_)]
+        has_lookup = any(c.endswith("Config::seed_policy") for c in calls)
+        has_allow = any(c.endswith("SeedingPolicy::is_allow") for c in calls)
+        extra = [c for c in calls if not re.search(r"Config::seed_policy$|SeedingPolicy::is_allow$|Result::map$|Result::and_then$|Try::branch$|Try>::branch$|from_residual$", c)]
+        seeding_ok = has_lookup and has_allow and not extra
+        why_seeding = "Config::is_seeding is seed_policy(rid).policy.is_allow()" if seeding_ok else \
+            "Config::is_seeding is no longer just the policy lookup (calls: %s)" % sorted(set(cfg.short(c) for c in calls))
+
+    def not_blocked(f):
+        if rules.is_bool(blk, False)(f):
+            return True
+        return seeding_ok and f[0] == "bool" and f[2] is True and cfg.callee_is(cfg.base_value(f[1]), re.compile(seeding_rx))
+    for label, pred in (("not-blocked", not_blocked), ("visible", rules.is_bool(vis, True))):
         ok, allow, bad = rules.dom_check(db, au, oks, pred)
-        ctx.check("dom:is_authorized:%s" % label, bool(ok and allow and oks),
-                  "is_authorized returns Ok only if %s" % label, rules.where(au, oks[0] if oks else None),
+        msg = "is_authorized returns Ok only if %s" % label
+        if label == "not-blocked" and not (ok and allow) and rules.call_blocks(au, seeding_rx):
+            msg += " — " + why_seeding
+        ctx.check("dom:is_authorized:%s" % label, bool(ok and allow and oks), msg, rules.where(au, oks[0] if oks else None),
                   detail={"path": list(bad.values())[:1]}, fn=au)
+    for bb in rules.call_blocks(au, seeding_rx):
+        a_ = nshow(peel_calls(expr_operand(au, au["blocks"][bb]["t"][2][1])))
+        ctx.check("flow:is_authorized:seeding-rid", a_ == "arg3", "the seeding test is about the requested repository (%s)" % a_, rules.where(au, bb), fn=au)
     for bb in rules.call_blocks(au, blk):
         e = peel_calls(expr_operand(au, au["blocks"][bb]["t"][2][0]))
         s = show(e)
